@@ -70,6 +70,9 @@ class Grammar(qc.QGrammar):
         P = IOProgram()
         qc.perturbation_cfg(P, h, kind, cpu)
         P.cfg["hqconc"] = h[10] % 2
+        P.cfg["inject"] = [0, 0, 50, 200, 500][h[22] % 5]       # short counts / EINTR injected into the library's read/write calls on the channel fds
+        if P.cfg["inject"]:
+            P.features.add("fault-injection")
         nch = 1 + h[11] % 3
         big = tier != "quick"
         for c in range(nch):
@@ -310,7 +313,7 @@ class Check(sc.SCheck):
     case_budget_s = 90.0
     rule = ("Hypothesis recipe -> program with 1-3 dispatch I/O channels (stream over a pipe or a socketpair in either direction, random access over a temp file), low/high "
             "water marks and intervals, optionally a 4 KiB pipe/socket buffer, a serial or concurrent handler queue, and a scripted peer (chunked writes or reads of 1 B-60 KiB "
-            "with pauses; writers end with EOF, readers drain). 1-2 threads submit reads (0..20000 bytes and SIZE_MAX), writes (0..70 KiB fragmented into 1-8 uneven regions), "
+            "with pauses; writers end with EOF, readers drain); in 3 of 5 cases the executable's own read/write/pread/pwrite interpose the library's calls on the channel descriptors and inject short counts and EINTR. 1-2 threads submit reads (0..20000 bytes and SIZE_MAX), writes (0..70 KiB fragmented into 1-8 uneven regions), "
             "barriers, water-mark changes and dispatch_io_close(0 / STOP) at generated places. Byte content is a function of the stream position, so the executor checks "
             "every delivered byte and, for writes, that what reached the peer is exactly the prefix each operation reports as written, in submission order, with the "
             "unwritten remainder being the tail of the submitted data. History oracles: per operation at most the requested length, every delivery <= the high-water mark "
@@ -318,7 +321,7 @@ class Check(sc.SCheck):
             "nothing submitted after a barrier is delivered before the barrier block returned; operations scheduled after close returned complete with ECANCELED; the cleanup handler "
             "runs once, after every handler; a channel read to EOF delivers exactly the bytes the peer wrote; completion via the stuck witness. Non-trivial: some "
             "operation was delivered in >= 2 pieces and the peer side needed >= 2 transfers; distinct = distinct program texts.")
-    assumptions = ["water marks are judged only when set in program order by the submitting thread", "chunkings are those the peer scripts and small buffers induce (no syscall-level fault injection)"]
+    assumptions = ["water marks are judged only when set in program order by the submitting thread", "chunkings are those the peer scripts, 4 KiB buffers and the injected short counts / EINTR induce"]
     G = Grammar()
 
     def replay_program(self, runner, text, active_cpus, runs, known):
@@ -357,6 +360,9 @@ class Check(sc.SCheck):
         classes = list(prog.features)
         if stats["multi_delivery"]:
             classes.append("op-delivered-in-pieces")
+        inj = [int(hist.ev["val"][i]) for i in hist.of_kind(K["VAL"]) if int(hist.ev["op"][i]) == -1 and int(hist.ev["idx"][i]) in (20, 21)]
+        if sum(inj) > 0:
+            classes.append("short-count-or-EINTR-injected")
         return (stats["multi_delivery"] and stats["peer_transfers"] >= 2), classes
 
 
